@@ -125,8 +125,8 @@ class ExperimentLexer(Lexer):
         self.lineno += t.value.count("\n")
 
     def error(self, t):
-        print("Illegal character '%s'" % t.value[0])
-        self.index += 1
+        # a character that belongs to no token is an error, it is not skipped
+        super().error(t)
 
 
 class BlockComment(Lexer):
